@@ -56,6 +56,7 @@ func init() {
 			"the statement is about successful steps: chains are fault-free except for at most one failing upgrade per chain (one injected cluster-side fault: first mutating request for a release resource rejected, else readiness wait failed), which only serves to make the newest revision differ from the deployed one; the failing step's own values are not judged; simulated API server, scripted waiter",
 			"the currently deployed revision is the revision with status deployed (= the last step that succeeded); when a failing step leaves no revision marked deployed, it is the revision the last successful step created; rollback targets include failed revisions",
 			"flag combinations (flag-combination plans: all 8 subsets of reset/reuse/reset-then-reuse): Helm documents and implements reset-values > reuse-values > reset-then-reuse-values, a lower flag is ignored; the reference applies the statement's rule of the winning flag",
+			"nil-values plans: \"no values\" is given in two spellings, an empty map and a nil map (Go API: Upgrade.Run(name, chart, nil)); both mean that no values were given",
 			"rollback-hook plans: the chart family carries a post-rollback hook; a failing rollback = the wait for that hook fails; like a failing upgrade it only sets up the following steps",
 			"null in new values is a value: overlay(old,new)[k]=new[k] (maps on both sides overlaid recursively); rendered values are compared with null-valued keys dropped on both sides",
 			"rendered values of a revision are required to equal effective(chart defaults in force, Config recorded for that revision); defaults in force follow the path: reuse-values keeps those of the deployed revision, other upgrades take the new chart's, rollback takes the target's",
@@ -66,7 +67,8 @@ func init() {
 			"rollback-restores-different", "null-recorded", "type-scalar-to-map", "type-map-to-scalar", "secrets-json-roundtrip", "rollback-to-reuse-revision", "chain-reuse-reuse",
 			"failed-upgrade-recorded:reject", "failed-upgrade-recorded:wait-fail", "carry-from-deployed-not-latest", "defaults-from-deployed-not-latest", "rollback-to-failed-revision",
 			"empty-over-populated-depth1", "empty-over-populated-depth2", "populated-over-empty-depth1", "populated-over-empty-depth2", "empty-table-keeps-defaults",
-			"reset-wins-over-reuse", "reset-wins-over-reset-then-reuse", "reuse-wins-over-reset-then-reuse", "failed-rollback-recorded", "carry-after-failed-rollback"},
+			"reset-wins-over-reuse", "reset-wins-over-reset-then-reuse", "reuse-wins-over-reset-then-reuse", "failed-rollback-recorded", "carry-after-failed-rollback",
+			"nil-values-carry:reuse", "nil-values-carry:reset-then-reuse", "nil-values-carry:default"},
 	})
 }
 
@@ -97,15 +99,17 @@ func chartSpecHook(v string) *hx.ChartSpec {
 type namedVals struct {
 	Name string
 	V    map[string]any
+	// Nil: "no values" spelled as a nil map (Upgrade.Run(name, chart, nil)) instead of an empty map.
+	Nil bool
 }
 
 var stepValues = []namedVals{
-	{"none", nil},
-	{"a=1", map[string]any{"a": 1}},
-	{"a=null", map[string]any{"a": nil}},
-	{"a={x:1}", map[string]any{"a": map[string]any{"x": 1}}},
-	{"b=s", map[string]any{"b": "s"}},
-	{"a={y:2}", map[string]any{"a": map[string]any{"y": 2}}}, // type change from a scalar, nested merge onto a map
+	{Name: "none", V: nil},
+	{Name: "a=1", V: map[string]any{"a": 1}},
+	{Name: "a=null", V: map[string]any{"a": nil}},
+	{Name: "a={x:1}", V: map[string]any{"a": map[string]any{"x": 1}}},
+	{Name: "b=s", V: map[string]any{"b": "s"}},
+	{Name: "a={y:2}", V: map[string]any{"a": map[string]any{"y": 2}}}, // type change from a scalar, nested merge onto a map
 }
 
 // emptyValues: the alphabet of the "empties" plans. An empty table in the new
@@ -113,19 +117,22 @@ var stepValues = []namedVals{
 // (depth 1: a, depth 2: a.x) the old subtree is carried forward; the reverse
 // (populated new over empty old) fills it; {} against a scalar is a type change.
 var emptyValues = []namedVals{
-	{"none", nil},
-	{"a={}", map[string]any{"a": map[string]any{}}},
-	{"a={x:{}}", map[string]any{"a": map[string]any{"x": map[string]any{}}}},
-	{"a={x:1}", map[string]any{"a": map[string]any{"x": 1}}},
-	{"a={x:{p:1}}", map[string]any{"a": map[string]any{"x": map[string]any{"p": 1}}}},
+	{Name: "none", V: nil},
+	{Name: "a={}", V: map[string]any{"a": map[string]any{}}},
+	{Name: "a={x:{}}", V: map[string]any{"a": map[string]any{"x": map[string]any{}}}},
+	{Name: "a={x:1}", V: map[string]any{"a": map[string]any{"x": 1}}},
+	{Name: "a={x:{p:1}}", V: map[string]any{"a": map[string]any{"x": map[string]any{"p": 1}}}},
 }
 
 // comboValues / hookValues: reduced alphabets of the flag-combination and rollback-hook plans.
 var comboValues = []namedVals{stepValues[0], stepValues[1], stepValues[4]}               // none, a=1, b=s
 var hookValues = []namedVals{stepValues[0], stepValues[1], stepValues[4], stepValues[3]} // + a={x:1}
 
+// nilValues: the alphabet of the nil-values plans: "no values" in both spellings next to two real value sets.
+var nilValues = []namedVals{{Name: "nil", Nil: true}, stepValues[0], stepValues[1], stepValues[4]}
+
 var stepValuesThorough = []namedVals{
-	{"a={x:null}", map[string]any{"a": map[string]any{"x": nil}}},
+	{Name: "a={x:null}", V: map[string]any{"a": map[string]any{"x": nil}}},
 }
 
 // installs: name -> (chart version, values)
@@ -264,6 +271,8 @@ func plans(tier string) []plan {
 			{"sec-len3-flagcombos", []string{"secrets"}, 3, initsCombos, comboValues, "next", false, modes8, false},
 			{"mem-len4-rollbackhook", []string{"memory"}, 4, initsHook, comboValues, "next", true, nil, true},
 			{"sec-len3-rollbackhook", []string{"secrets"}, 3, initsHook, comboValues, "next", true, nil, true},
+			{"mem-len4-nilvalues", []string{"memory"}, 4, initsCombos, nilValues, "next", false, nil, false},
+			{"sec-len3-nilvalues", []string{"secrets"}, 3, initsCombos, nilValues, "next", false, nil, false},
 		}
 	}
 	return []plan{
@@ -275,6 +284,8 @@ func plans(tier string) []plan {
 		{"sec-len2-flagcombos", []string{"secrets"}, 2, initsCombos, comboValues, "next", false, modes8, false},
 		{"mem-len3-rollbackhook", []string{"memory"}, 3, initsHook, hookValues, "next", true, nil, true},
 		{"sec-len3-rollbackhook", []string{"secrets"}, 3, []string{"ih-a5-bu"}, comboValues, "next", true, nil, true},
+		{"mem-len3-nilvalues", []string{"memory"}, 3, initsCombos, nilValues, "next", false, nil, false},
+		{"sec-len2-nilvalues", []string{"secrets"}, 2, initsCombos, nilValues, "next", false, nil, false},
 	}
 }
 
@@ -401,7 +412,9 @@ func config(p plan, tier string) *opspace.Config {
 			for _, v := range p.Vals {
 				for _, ch := range p.charts(depChart) {
 					for _, m := range planModes {
-						out = append(out, opspace.Step{Op: upgradeOpOn(m, spec(ch), v.V)})
+						op := upgradeOpOn(m, spec(ch), v.V)
+						op.NilValues = v.Nil
+						out = append(out, opspace.Step{Op: op})
 					}
 				}
 			}
@@ -879,7 +892,11 @@ func evaluate(t *opspace.Transition) (v verdict) {
 	}
 	want := refConfig(mode, depCfg, nw, tgtCfg)
 	got := normMap(nr.Config)
-	shape := fmt.Sprintf("new=%s|dep.a=%s", valuesName(op.Values), kindOf(depCfg, "a"))
+	newName := valuesName(op.Values)
+	if op.NilValues && op.Values == nil {
+		newName = "nil"
+	}
+	shape := fmt.Sprintf("new=%s|dep.a=%s", newName, kindOf(depCfg, "a"))
 	if mode == "rollback" {
 		shape = "target-differs-from-deployed"
 		if canon(tgtCfg) == canon(depCfg) {
@@ -1022,6 +1039,12 @@ func evaluate(t *opspace.Transition) (v verdict) {
 		}
 		if op.ResetThenReuseValues {
 			floor("reset-wins-over-reset-then-reuse")
+		}
+	}
+	if op.NilValues && op.Values == nil && len(depCfg) > 0 {
+		switch mode {
+		case "reuse", "reset-then-reuse", "default":
+			floor("nil-values-carry:" + mode)
 		}
 	}
 	if mode == "reuse" && op.ResetThenReuseValues && dclass == "defaults-kept" {
